@@ -1597,6 +1597,15 @@ End HintPruner.
 (* Part 7: known defects — witnesses, and the statements outside the classes                *)
 (* ====================================================================================== *)
 Definition no_regex : string -> string -> option bool := fun _ _ => None.
+Definition q_of (rq : raw_query) : ir_query :=
+  match lower_query rq with Ok q => q | Panic _ => mkQ "" [] (mkComp 0 [] [] []) [] end.
+Definition has_request (r : res (list Exec.row * list event)) (vid : N) (p : string) : bool :=
+  match r with
+  | Ok (_, evs) => existsb (fun e => match e with EProp v p' => N.eqb v vid && String.eqb p' p | _ => false end) evs
+  | Panic _ => false
+  end.
+Definition row_in (r : Sem.row) (l : list Sem.row) : bool :=
+  existsb (fun r' => String.eqb (Run.show_row r) (Run.show_row r')) l.
 
 (* ---- F10: `>=` against a tag yields an upper bound ---- *)
 (* full statement (FALSE of the model, as of the code):
@@ -1631,21 +1640,23 @@ Definition ds_f10 : dataset :=
        [(1, [("link", [2; 1])]); (2, [("link", [2; 1])])]
        [("Thing", [1; 2])] [("Thing", ["Box"; "Leaf"; "Gadget"])].
 
+Definition ctx_f10 : ctx := mkCtx (Some 1) [(1, Some 1)] [] [] [] [] None [].
 Theorem dynamic_hint_ge_tag_refuted_query :
-  exists q vi dv k,
+  let q := q_of rq_f10 in
+  let vi := mkVI false 1 2 (FExcl 2) false false in
+  let dv := mkDV 1 (FRContext (mkCF 1 "id" ty_int_nn)) GreaterThanOrEqual (CRange range_full_non_null) in
+  let k := CRange (mkRange Unb (Incl (U64 1)) false) in
     lower_query rq_f10 = Ok q /\ k_ge_tag_hint q = true /\
     resolve_edge_info_destination q 1 2 1 = Ok vi /\
     dynamically_required q [] vi "id" = Ok (Some dv) /\
     (* resolved for the row whose vertex 1 is dataset vertex 1 (tag value 1) *)
-    dyn_resolve q (graph_of_dataset ds_f10) dv (mkCtx (Some 1) [(1, Some 1)] [] [] [] [] None []) = Ok k /\
+    dyn_resolve q (graph_of_dataset ds_f10) dv ctx_f10 = Ok k /\
     (* neighbour 2 has id 2: the filter `2 >= 1` holds, yet the hint excludes it *)
     holds no_regex GreaterThanOrEqual (ds_prop ds_f10 "Thing" "id" 2) (U64 1) = true /\
     f_mem k (ds_prop ds_f10 "Thing" "id" 2) = false /\
     (* and the row (id = 1, o2 = 2) is a result of the query *)
-    In [("id", U64 1); ("o2", U64 2)] (sem no_regex (graph_of_dataset ds_f10) [] q).
-Proof.
-  do 4 eexists. vm_compute. repeat split; try reflexivity. left. reflexivity.
-Qed.
+    row_in [("id", U64 1); ("o2", U64 2)] (sem no_regex (graph_of_dataset ds_f10) [] q) = true.
+Proof. vm_compute. repeat split; reflexivity. Qed.
 
 (* ---- F17: a null tag value panics in Range::with_end / with_start, or in as_slice() for one_of ---- *)
 (* full statement (FALSE): forall dv c, (ctx c has every vertex / fold / imported tag dv refers to) ->
@@ -1667,13 +1678,15 @@ Definition rq_f17 : raw_query :=
            [("id", mkCF 1 "id" ty_int_nn); ("o2", mkCF 2 "score" ty_int)]) [].
 
 Theorem dynamic_hint_null_tag_refuted_query :
-  exists q vi dv s,
+  let q := q_of rq_f17 in
+  let vi := mkVI false 1 2 (FExcl 2) false false in
+  let dv := mkDV 1 (FRContext (mkCF 1 "score" ty_int)) LessThan All in
     lower_query rq_f17 = Ok q /\
     resolve_edge_info_destination q 1 2 1 = Ok vi /\
     dynamically_required q [] vi "score" = Ok (Some dv) /\
     (* ds_f10's vertices have no score: the tag value is null *)
-    dyn_resolve q (graph_of_dataset ds_f10) dv (mkCtx (Some 1) [(1, Some 1)] [] [] [] [] None []) = Panic s.
-Proof. do 4 eexists. vm_compute. repeat split; reflexivity. Qed.
+    dyn_resolve q (graph_of_dataset ds_f10) dv ctx_f10 = Panic "candidates.rs:assert cannot bound range with null value".
+Proof. vm_compute. repeat split; reflexivity. Qed.
 
 (* outside K-null-tag-hint resolving never panics (one_of operands are lists or null by typing) *)
 Theorem dynamic_hint_no_panic_outside nr op init w :
@@ -1752,28 +1765,18 @@ Definition rq_f11b : raw_query :=
        [("id", mkCF 1 "id" ty_int_nn)]) [].
 
 Theorem requested_subset_required_imported_refuted :
-  exists q, lower_query rq_f11a = Ok q /\ wf_hints_query q = true /\
-            In (1, "name") (property_requests q) /\ ~ In "name" (required_of q 1) /\
-            k_imported_tag_not_required q = true /\ k_count_filter_tag_not_required q = false /\
-            (* the Exec-level log of a run contains the request *)
-            (exists rows evs, trace_query no_regex (graph_of_dataset ds_f10) [] q = Ok (rows, evs) /\
-                              In (EProp 1 "name") evs).
-Proof.
-  eexists. split; [reflexivity|]. split; [reflexivity|]. split; [vm_compute; tauto|].
-  split; [intros H; apply mem_str_In in H; vm_compute in H; discriminate|].
-  split; [reflexivity|]. split; [reflexivity|].
-  do 2 eexists. split; [vm_compute; reflexivity|]. cbn. tauto.
-Qed.
+  let q := q_of rq_f11a in
+    lower_query rq_f11a = Ok q /\ wf_hints_query q = true /\
+    existsb (pair_eqb (1, "name")) (property_requests q) = true /\ mem_str "name" (required_of q 1) = false /\
+    k_imported_tag_not_required q = true /\ k_count_filter_tag_not_required q = false /\
+    (* the Exec-level log of a run contains the request *)
+    has_request (trace_query no_regex (graph_of_dataset ds_f10) [] q) 1 "name" = true.
+Proof. vm_compute. repeat split; reflexivity. Qed.
 
 Theorem requested_subset_required_count_tag_refuted :
-  exists q, lower_query rq_f11b = Ok q /\ wf_hints_query q = true /\
-            In (1, "score") (property_requests q) /\ ~ In "score" (required_of q 1) /\
-            k_count_filter_tag_not_required q = true /\ k_imported_tag_not_required q = false /\
-            (exists rows evs, trace_query no_regex (graph_of_dataset ds_f10) [] q = Ok (rows, evs) /\
-                              In (EProp 1 "score") evs).
-Proof.
-  eexists. split; [reflexivity|]. split; [reflexivity|]. split; [vm_compute; tauto|].
-  split; [intros H; apply mem_str_In in H; vm_compute in H; discriminate|].
-  split; [reflexivity|]. split; [reflexivity|].
-  do 2 eexists. split; [vm_compute; reflexivity|]. cbn. tauto.
-Qed.
+  let q := q_of rq_f11b in
+    lower_query rq_f11b = Ok q /\ wf_hints_query q = true /\
+    existsb (pair_eqb (1, "score")) (property_requests q) = true /\ mem_str "score" (required_of q 1) = false /\
+    k_count_filter_tag_not_required q = true /\ k_imported_tag_not_required q = false /\
+    has_request (trace_query no_regex (graph_of_dataset ds_f10) [] q) 1 "score" = true.
+Proof. vm_compute. repeat split; reflexivity. Qed.
